@@ -139,7 +139,9 @@ def run_harness(stage_dir, target_dir, harness, log_path, timeout, mem_kb, extra
     text = open(log_path, errors="replace").read()
     parsed = parse_output(text)
     parsed["rc"], parsed["timeout"], parsed["wall_s"] = rc, to, wall
-    parsed["oom"] = ("std::bad_alloc" in text) or ("Out of memory" in text) or ("SAT checker ran out of memory" in text)
+    parsed["oom"] = ("std::bad_alloc" in text) or ("Out of memory" in text) or ("ran out of memory" in text) or ("run out of memory" in text)
+    if parsed["oom"]:
+        parsed["verdict"] = None
     parsed["text_tail"] = text[-3000:]
     if playback:
         parsed["playback_vals"] = parse_playback(text)
@@ -203,7 +205,9 @@ def run_batch(stage_dir, target_dir, harnesses, log_path, per_timeout, mem_kb, f
         parsed["rc"] = rc
         parsed["timeout"] = ("timed out" in body) or (parsed["verdict"] is None and to)
         parsed["wall_s"] = vt if vt is not None else 0.0
-        parsed["oom"] = ("std::bad_alloc" in body) or ("Out of memory" in body) or ("ran out of memory" in body)
+        parsed["oom"] = ("std::bad_alloc" in body) or ("Out of memory" in body) or ("ran out of memory" in body) or ("run out of memory" in body)
+        if parsed["oom"]:
+            parsed["verdict"] = None
         parsed["text_tail"] = body[-2000:]
         if playback:
             parsed["playback_vals"] = parse_playback(body)
